@@ -120,6 +120,7 @@ func c10Body(c *core.Ctx) {
 		Run(c, &core.Case{Fam: "pdf", S: big("0123456789", 30000), P: []int{lv}})
 		Run(c, &core.Case{Fam: "pdf", S: byteFiller(12000), P: []int{lv}})
 	}
+	longSymbols(c, "c39", "c93", "codabar", "tof")
 	// 4b. dense sweeps beyond capacity: oversize content must be refused whatever integer width an
 	// implementation counts bits, codewords or characters in
 	farQR(c, []int{0, 3})
